@@ -34,7 +34,7 @@ ASSUMPTIONS = [
 def floors(tier):
     return {"clean": 800, "garbage": 800, "nontrivial": 500, "all-accepted": 100,
             "filtered-frame-malformed": 100, "short-reads": 300, "largest-frames": 200,
-            "carrier-frame": 800, "source=buffered": 300, "source=file": 150, "source=rawpipe": 100}
+            "carrier-frame": 800, "source=buffered": 300, "source=file": 150, "source=rawpipe": 100, "source=socket": 150}
 
 
 def plan(tier, seed):
@@ -170,7 +170,7 @@ OPTS = st.fixed_dictionaries({
     # a source that hands out the data in bursts (reads may come back short), or not
     "_bursts": st.one_of(st.none(), st.none(), st.lists(st.integers(1, 60), min_size=1, max_size=20)),
     # what the bytes sit behind: BytesIO, a buffered reader (has peek()), a real file, a raw pipe
-    "_source": st.sampled_from([None, None, "buffered:16", "buffered:8192", "file", "rawpipe"]),
+    "_source": st.sampled_from([None, None, "buffered:16", "buffered:8192", "file", "rawpipe", "socket:plain"]),
 })
 
 
@@ -214,11 +214,13 @@ def run_shard(spec, ctx, acc):
                 streams.item("ubx", S.codec.ubx_frame(b"\x04", b"\x04", rt), "carrier"),
                 streams.item("rtcm", S.codec.rtcm_frame(bytes([0xFF, 0xF0]) + ub), "carrier"),
                 streams.item("rtcm", S.codec.rtcm_frame(bytes([0xFE, 0x80]) + nm), "carrier")]
+    # ... and the same carriers damaged (checksum / CRC wrong): rejected as a unit, whatever the mask
+    carriers += [streams.item(c["p"], bytes(c["b"])[:-1] + bytes([bytes(c["b"])[-1] ^ 0x55]), "badck") for c in carriers[:4]]
     if b"\n" not in ub and b"\r" not in ub:
         carriers.append(streams.item("nmea", b"$GNTXT,01,01,02," + ub + b"*00\r\n", "carrier"))  # (checksum wrong: rejected as a unit)
     for car in carriers:
         for lead in (b"", b"\x00\x01", b"\r\n"):
-            for source in (None, "buffered:16", "buffered:8192", "file", "rawpipe"):
+            for source in (None, "buffered:16", "buffered:8192", "file", "rawpipe", "socket:plain"):
                 items = ([streams.item("noise", lead, "noise")] if lead else []) + [car] + tail
                 case = {"kind": "filter", "items": items, "clean": True, "all_accepted": False,
                         "opts": {"msgmode": 0, "validate": 1, "parsebitfield": 1, "quitonerror": spec["part"] % 2,
